@@ -100,6 +100,9 @@ reg = {
         "tableverify": {"overlay": "units/tableverify.ovl", "canaries": ["canary_tableverify"],
                         "helpers": ["clone", "get_page", "new", "verify_checksum", "fixed_width", "fixed_width_with", "next", "parse_subtree_roots", "value", "range", "hint"]},
         # the release of a deleted table's pages (fragment of TableTreeMut::delete_table)
+        "openproto": {"overlay": "units/openproto.ovl", "canaries": ["canary_openproto"],
+                      "helpers": ["invalid_data", "from", "max", "div_ceil_u32", "fmt_msg", "new", "calculate", "len", "to_bytes", "from_bytes", "recovery_required", "finalize",
+                                  "to_vec", "try_into", "copy_from_slice", "mem_mut", "raw_file_len", "read_direct", "resize", "write", "flush"]},
         "reload": {"overlay": "units/reload.ovl", "canaries": ["canary_reload"],
                    "helpers": ["lock", "from", "len", "layout", "to_bytes", "from_bytes", "finalize", "copy_from_slice", "mem_mut", "discard_write_buffer", "invalidate_cache_all",
                                "sync_file", "flush", "read_direct", "raw_file_len", "write", "clear"]},
@@ -235,10 +238,12 @@ P["C20"] = {
     "verus": [{"unit": "alloc", "functions": LAYOUT + ["BuddyAllocator::trailing_free_pages", "BuddyAllocator::find_free_order", "PageNumber::*",
                                               "TransactionalMemory::try_shrink", "TransactionalMemory::grow", "TransactionalMemory::commit", "TransactionalMemory::close", "TransactionalMemory::mark_page_allocated", "TransactionalMemory::check_page_order", "Mutex::lock", "drop", "max_u64", "InMemoryState::get_region", "InMemoryState::allocators", "InMemoryState::allocators_mut",
                                               "DatabaseHeader::*", "Allocators::resize_to", "Allocators::lemma_resize_shrink", "Allocators::lemma_grow_step_*", "lemma_pow2_shift"]},
-              {"unit": "roopen", "functions": ["ReadOnlyDatabase::new"]}],
+              {"unit": "roopen", "functions": ["ReadOnlyDatabase::new"]},
+              {"unit": "openproto", "functions": ["TransactionalMemory::open_protocol"]}],
     "kani": [K["C20-L1"], K["C20-L2a"], K["C20-L2b"], K["C20-L3a"], K["C20-L3b"]],
-    "explanation": "Kernel: (A1) every page of every region of a valid layout ends inside layout.len() (lemma_page_in_bounds over the real layout.rs accessors); (A2) reduce_last_region shortens the layout by exactly the pages cut (plus the region header when the region disappears) and recalculate(file_len) never extends past the file; (A3) calculate(d) offers at least d usable bytes; (A4) never shrinks below a page still in use: the pages trailing_free_pages reports are all free, and the REAL try_shrink cuts at most those pages from the last region (reduce_last_region), hands resize_to a layout whose removed pages are all free, keeps the allocator state consistent with the header layout, and never lengthens the layout; the REAL TransactionalMemory::commit truncates the file (storage.resize) only after the header carrying the shorter layout has been written and synced, to exactly that layout's length; the REAL TransactionalMemory::grow extends the file to exactly the new layout's length and syncs it BEFORE the allocator state and the header adopt the larger layout, leaves the state untouched when either step fails, never shortens the layout, makes room for the allocation that asked for it, and keeps every region but the last as it was; the REAL TransactionalMemory::close reaches the backend's close() exactly once, as the last event, also when the shutdown writes failed; (L1) the I/O-failure latch is inductive and nothing reaches the backend once it is set; (L2) close() reaches the backend once and nothing afterwards; (L3) the read-only wrapper forwards no mutation; (RO) the REAL ReadOnlyDatabase::new wraps the file in the read-only backend, opens the page store read-only and WITHOUT permission to initialise the file, and gives up with RepairAborted instead of repairing when no saved allocator state is usable.",
-    "not_decided": "'exactly once' across Database / transaction hand-off on threads; failing opens through Builder; page numbers followed from a corrupted branch page on the READ path (get_page; mark_page_allocated validates the page numbers of the rebuild against the layout); flush_shutdown_header (assumed not to close the backend); allocate_helper's call of grow (it holds the state lock across the call)",
+    "explanation": "Kernel: (A1) every page of every region of a valid layout ends inside layout.len() (lemma_page_in_bounds over the real layout.rs accessors); (A2) reduce_last_region shortens the layout by exactly the pages cut (plus the region header when the region disappears) and recalculate(file_len) never extends past the file; (A3) calculate(d) offers at least d usable bytes; (A4) never shrinks below a page still in use: the pages trailing_free_pages reports are all free, and the REAL try_shrink cuts at most those pages from the last region (reduce_last_region), hands resize_to a layout whose removed pages are all free, keeps the allocator state consistent with the header layout, and never lengthens the layout; the REAL TransactionalMemory::commit truncates the file (storage.resize) only after the header carrying the shorter layout has been written and synced, to exactly that layout's length; the REAL TransactionalMemory::grow extends the file to exactly the new layout's length and syncs it BEFORE the allocator state and the header adopt the larger layout, leaves the state untouched when either step fails, never shortens the layout, makes room for the allocation that asked for it, and keeps every region but the last as it was; the REAL TransactionalMemory::close reaches the backend's close() exactly once, as the last event, also when the shutdown writes failed; (L1) the I/O-failure latch is inductive and nothing reaches the backend once it is set; (L2) close() reaches the backend once and nothing afterwards; (L3) the read-only wrapper forwards no mutation; (OP) the REAL open protocol of TransactionalMemory::new (fragment: from the first length query to the header rewrite of recovery) over a storage model in which every read and write carries 'offset + len <= current length' as its PRECONDITION: the magic number is read only from a file long enough to hold it, the header only from a file at least a header long (a shorter file that carries the magic number is refused as corrupted - the genuine defect repaired by the second fix commit, see known_findings.json), a new file is resized to its layout before the header is written and gets its magic number only in a second write after a flush, an empty file is initialised only on request, and a read-only open that may not initialise issues nothing but reads; (RO) the REAL ReadOnlyDatabase::new wraps the file in the read-only backend, opens the page store read-only and WITHOUT permission to initialise the file, and gives up with RepairAborted instead of repairing when no saved allocator state is usable.",
+    "assumptions": ["O1 (openproto unit): the storage is its current length and the trace of reads / resizes / writes / flushes that reached it; raw_file_len reports the length; resize sets it; what is written through a page handle reaches the file; the header parser's verdicts are uninterpreted functions of the bytes read; DatabaseLayout::calculate yields a layout at least one page long (verified in unit alloc: A3); the serialised region tracker of 1000 regions is below 256 MiB; page sizes up to 64 KiB, 64-bit usize; error messages dropped (local format!)"],
+    "not_decided": "'exactly once' across Database / transaction hand-off on threads; failing opens through Builder above TransactionalMemory::new; page numbers followed from a corrupted branch page on the READ path (get_page; mark_page_allocated validates the page numbers of the rebuild against the layout); flush_shutdown_header (assumed not to close the backend); allocate_helper's call of grow (it holds the state lock across the call)",
 }
 P["C08"] = {
     "level": "proof",
